@@ -68,6 +68,7 @@ func runC08(c *core.Ctx) {
 	}
 	tableRule(c)
 	chainRule(c)
+	stepRule(c)
 	for _, f := range []struct {
 		typ, name string
 		pack      bool
